@@ -931,7 +931,7 @@ FAMILIES = ["operand-bool", "operand-str", "logic-int", "cond-nonbool", "arg-cou
             "name-undeclared", "name-out-of-scope", "match-drop-arm", "match-after-default",
             "match-dup-arm", "neg-unsigned", "exit-forbidden", "assign-non-local", "redeclare",
             "recursive-type", "recursive-const", "elem-type", "return-type", "let-type", "assign-type",
-            "fallthrough-after-loop", "match-rename-arm", "name-sibling-scope", "recursive-member"]
+            "fallthrough-after-loop", "fallthrough-after-shortcircuit", "match-rename-arm", "name-sibling-scope", "recursive-member"]
 # the rule list of the property statement; every rule must be hit by a family that produced mutants
 RULES = ["operand type / arithmetic or ordering on non-numbers", "operand type", "condition type",
          "wrong argument count", "argument type", "missing, duplicate or unknown record field", "field type",
